@@ -65,6 +65,10 @@ func main() {
 					cases = append(cases, g.kernelCase(i))
 				case "kco":
 					cases = append(cases, g.coCase(i))
+				case "kpull":
+					cases = append(cases, g.pullCase(i))
+				case "krem":
+					cases = append(cases, g.remCase(i))
 				case "kslice":
 					cases = append(cases, g.sliceCase(i))
 				default:
